@@ -46,4 +46,7 @@ def native_replay(v, path):
         token = 0x1_0000_0001
     rc, out = native.run_test("C20", "native/c20_replay.rs", "core/src/net/selector/mod.rs", "c20_native_replay",
                               env={"VERIF_CEX_TOKEN": str(token)})
-    return native.verdict(rc, out, dict(token=token))
+    # the counterexample token goes through the real do_register -> epoll -> get_token path: decisive for the
+    # register codec obligation only; for the others (reregister, two descriptors) it merely confirms
+    return native.verdict(rc, out, dict(token=token, decisive=(v["obligation"] == "C20.decode_encode_identity"),
+                                        scenario="counterexample token through Selector::do_register / do_select / Event::get_token"))
